@@ -2,7 +2,7 @@
 # official run of a check against a seeded change: apply to /repo, run the quick check, undo straight afterwards
 #   tools/run_seed.sh <seed dir name under seeded/> [check id]
 SEED="$1"; ID="${2:-${SEED%%-*}}"
-cd /verif
+cd /verif; mkdir -p /tmp/mut
 [ -z "$(git -C /repo status --porcelain)" ] || { echo "/repo not clean"; exit 2; }
 git -C /repo apply "/verif/seeded/$SEED/patch.diff" || exit 2
 export VF_EVIDENCE_DIR="/tmp/mut/official_ev" VF_REPLAY_DIR="/tmp/mut/official_rp_$SEED"
